@@ -7,10 +7,11 @@ from vf import core
 from vf.core import CorrResult, Failure
 from . import kalman_common as kc
 from . import kalman_sessions as ks
+from translator import measblock as trm
 
 ID = "C08"
 PROPS = "props/C08.v"
-GENERATED: list = []
+GENERATED = [trm.OUT]
 CASE_DEPS = ["lib/MatOps.vo", "model/Kalman.vo", "lib/KalmanCase.vo", "model/KalmanSession.vo", "lib/KalmanSessionCase.vo"]
 ALLOWED_AXIOMS: set = set()          # the theorems are closed under the global context
 TRUSTED = [
@@ -58,6 +59,10 @@ MANIFEST = {
                   "differences below 1e-7 relative, float rounding (theorems are exact over a field).  Re-simulation through "
                   "Simultaneous.simulate is checked by the falsifier only (it is not modelled).",
 }
+
+
+def translate(ctx):
+    trm.run()
 
 
 def correspondence(ctx) -> CorrResult:
